@@ -55,6 +55,36 @@ fn values_for<T: Fl>(g: &Graph<T>, a: usize, dense: bool) -> Vec<[T; 3]> {
             }
         }
     }
+    if T::NAME == "f32" {
+        // in f32 the statement's "at least one billionth of the range away" admits the float neighbours
+        // of every bound (6e-8 .. 1e-5 away), which `bound +- 1e-9 * range` cannot express in f32 (it rounds
+        // to the bound): every lattice point with one component moved to its float neighbours, kept when
+        // the component stays inside the span of the lattice (= the documented range)
+        let mut lo = [f64::INFINITY; 3];
+        let mut hi = [f64::NEG_INFINITY; 3];
+        for v in &out {
+            for i in 0..3 {
+                lo[i] = lo[i].min(v[i].to64());
+                hi[i] = hi[i].max(v[i].to64());
+            }
+        }
+        let base = out.clone();
+        for v in &base {
+            for i in 0..3 {
+                for w in [v[i].up(), v[i].down()] {
+                    // ... and stays at least 1e-9 of the range away from a bound / zero it does not sit on
+                    // (the float neighbour of 0 is a subnormal, far closer than that)
+                    let span = hi[i] - lo[i];
+                    let too_close = [lo[i], hi[i], 0.0].iter().any(|b| { let d = (w.to64() - b).abs(); d > 0.0 && d < 1e-9 * span });
+                    if w.to64() >= lo[i] && w.to64() <= hi[i] && !too_close {
+                        let mut q = *v;
+                        q[i] = w;
+                        out.push(q);
+                    }
+                }
+            }
+        }
+    }
     out.sort_by_key(|v| [v[0].bits64(), v[1].bits64(), v[2].bits64()]);
     out.dedup_by_key(|v| [v[0].bits64(), v[1].bits64(), v[2].bits64()]);
     out
